@@ -14,7 +14,7 @@ RULE = (
     "{a,b,ab,*,a*,*a,a*b,**,xn--a,xn--*,''} (K=2 exhaustive + Hypothesis-sampled 3/4-label pairs in quick; K=3 "
     "exhaustive in thorough), each also with the host upper-cased; (b) Hypothesis SAN lists of <= 3 entries mixing "
     "DNS and 'IP Address' entries, IPv4/IPv6 hosts in bracketed/zoned/non-canonical spellings, commonName with the "
-    "flag on/off; (c) pins derived from the true MD5/SHA-1/SHA-256 digests of generated DER blobs by case change, "
+    "flag on/off, (b') the same lists through the connection-level entry point (_ssl_wrap_socket_and_match_hostname with the TLS wrap stubbed) under the settings in which urllib3 matches the name itself: cert_reqs=OPTIONAL, assert_hostname, a context with check_hostname off, a caller context that enables commonName; (c) pins derived from the true MD5/SHA-1/SHA-256 digests of generated DER blobs by case change, "
     "colon insertion, single-nibble flip, truncation/extension by 1..4 nibbles. Non-trivial = the SAN name has a '*', "
     "'xn--' or empty label, or the host is an IP, or CN fallback is in play; for pins: the pin differs from the "
     "canonical lower-case hex digest. Distinct by hash (exhaustive part: by construction)."
@@ -54,6 +54,82 @@ def _call(cert, host, flag, via_wrapper):
         return "reject", f"ValueError {e}"
     except BaseException as e:  # noqa: BLE001
         return "crash", f"{type(e).__name__}: {e}"
+
+
+WIRED_MODES = ["optional", "assert-hostname", "nocheck-ctx", "caller-ctx-cn"]
+
+
+def _call_wired(cert, host, mode):
+    """The same matcher reached the way a connection reaches it: urllib3.connection._ssl_wrap_socket_and_match_hostname
+    with the TLS wrap itself stubbed (the peer "presented" the synthetic certificate).  The settings are those under
+    which urllib3 matches the name itself; only `caller-ctx-cn` (the caller's own context asks for it) enables commonName.
+    -> ('accept'|'reject'|'crash', detail)"""
+    import ssl
+
+    import urllib3.connection as uc
+    from urllib3.util.ssl_ import create_urllib3_context
+    from urllib3.util.ssl_match_hostname import CertificateError
+
+    class _Sock:
+        def getpeercert(self, binary_form=False):
+            return b"" if binary_form else cert
+
+        def close(self):
+            pass
+
+    kw = dict(cert_reqs="CERT_REQUIRED", ssl_version=None, ssl_minimum_version=None, ssl_maximum_version=None, cert_file=None, key_file=None, key_password=None,
+              ca_certs=None, ca_cert_dir=None, ca_cert_data=None, assert_hostname=None, assert_fingerprint=None, server_hostname=host, ssl_context=None, tls_in_tls=False)
+    if mode == "optional":
+        kw["cert_reqs"] = "CERT_OPTIONAL"
+    elif mode == "assert-hostname":
+        kw["assert_hostname"] = host
+        kw["server_hostname"] = "elsewhere.invalid"
+    elif mode == "nocheck-ctx":
+        c = create_urllib3_context()
+        c.check_hostname = False
+        kw["ssl_context"] = c
+    elif mode == "caller-ctx-cn":
+        c = ssl.SSLContext(ssl.PROTOCOL_TLS_CLIENT)
+        c.check_hostname = False
+        c.hostname_checks_common_name = True
+        kw["ssl_context"] = c
+    else:
+        raise core.InvalidCase
+    saved = uc.ssl_wrap_socket
+    uc.ssl_wrap_socket = lambda **k: _Sock()
+    try:
+        uc._ssl_wrap_socket_and_match_hostname(object(), **kw)
+        return "accept", ""
+    except CertificateError as e:
+        return "reject", str(e)
+    except ValueError as e:
+        return "reject", f"ValueError {e}"
+    except BaseException as e:  # noqa: BLE001
+        return "crash", f"{type(e).__name__}: {e}"
+    finally:
+        uc.ssl_wrap_socket = saved
+
+
+def check_wired(sans, cn, host, mode) -> list[Failure]:
+    cert = {}
+    if sans:
+        cert["subjectAltName"] = tuple((k, v) for k, v in sans)
+    if cn is not None:
+        cert["subject"] = ((("organizationName", "x"),), (("commonName", cn),))
+    if not cert:
+        cert["notAfter"] = "x"
+    flag = mode == "caller-ctx-cn"
+    want = refname.decide([tuple(s) for s in sans], cn, host, flag)
+    got, detail = _call_wired(cert, host, mode)
+    sig = {"mode": mode}
+    if got == "crash":
+        return [Failure("clean-reject", {**sig, "exc": detail.split(":")[0]}, f"[connection-level, {mode}] sans={sans} cn={cn} host={host!r}: {detail}")]
+    if want == "accept" and got != "accept":
+        return [Failure("must-accept", {**sig, "ip": refname.host_ip(host) is not None}, f"[connection-level, {mode}] sans={sans} cn={cn!r} host={host!r}: rejected ({detail})")]
+    if want == "reject" and got == "accept":
+        kind = "ip" if refname.host_ip(host) is not None else ("cn" if not [s for s in sans if s[0] in ("DNS", "IP Address")] else "dns")
+        return [Failure("must-reject", {**sig, "kind": kind}, f"[connection-level, {mode}] sans={sans} cn={cn!r} commonName enabled={flag} host={host!r}: accepted")]
+    return []
 
 
 def check_match(sans, cn, host, flag, via_wrapper=True) -> list[Failure]:
@@ -107,6 +183,10 @@ def check_pin(der: bytes, pin: str) -> list[Failure]:
 
 def check_case(case) -> list[Failure]:
     k = case.get("kind")
+    if k == "wired":
+        if case.get("mode") not in WIRED_MODES or (case["mode"] == "assert-hostname" and not case["host"]):
+            raise core.InvalidCase
+        return check_wired([tuple(s) for s in case["sans"]], case.get("cn"), case["host"], case["mode"])
     if k == "match":
         return check_match([tuple(s) for s in case["sans"]], case.get("cn"), case["host"], bool(case.get("flag")), case.get("wrapper", True))
     if k == "pin":
@@ -242,6 +322,7 @@ def shards(tier, seed):
     for i in range(rs):
         out.append({"part": "lists", "n": n1 // rs, "seed": core.derive_seed(seed, "l", i)})
         out.append({"part": "pins", "n": n2 // rs, "seed": core.derive_seed(seed, "p", i)})
+        out.append({"part": "wired", "n": n2 // rs, "seed": core.derive_seed(seed, "w", i)})
     return out
 
 
@@ -290,6 +371,22 @@ def run_shard(spec):
             col.case({"kind": "match", "sans": [list(s) for s in sans], "cn": cn, "host": host, "flag": flag}, _nontrivial_match(sans, cn, host, flag), cls, fails)
 
         core.hyp_run(_hyp_matches(), spec["n"], spec["seed"], body)
+    elif part == "wired":
+        from hypothesis import strategies as st
+
+        def body(t):
+            (sans, cn, host, _flag), mode = t
+            if mode == "assert-hostname" and not host:
+                mode = "optional"  # an empty assert_hostname means "not set"
+            sans = [tuple(s) for s in sans]
+            flag = mode == "caller-ctx-cn"
+            want = refname.decide(sans, cn, host, flag)
+            cls = ["wired:" + mode + ":" + want]
+            if cn is not None and not [s for s in sans if s[0] in ("DNS", "IP Address")]:
+                cls.append("wired:cn-only:" + mode + ":" + want)
+            col.case({"kind": "wired", "sans": [list(s) for s in sans], "cn": cn, "host": host, "mode": mode}, _nontrivial_match(sans, cn, host, flag), cls, check_wired(sans, cn, host, mode))
+
+        core.hyp_run(st.tuples(_hyp_matches(), st.sampled_from(WIRED_MODES)), spec["n"], spec["seed"], body)
     else:
 
         def body(case):
